@@ -215,7 +215,7 @@ func (d *Dumper) ValueLit(in any, optFns ...ValueLitOptFn) string {
 		keyValues := map[string]reflect.Value{}
 
 		for _, key := range rv.MapKeys() {
-			k := d.ValueLit(key, optFns...)
+			k := d.ValueLit(key, append(optFns, SubValue(false))...)
 			keyLits = append(keyLits, k)
 			keyValues[k] = rv.MapIndex(key)
 		}
@@ -229,7 +229,8 @@ func (d *Dumper) ValueLit(in any, optFns ...ValueLitOptFn) string {
 
 			buf.WriteString(k)
 			buf.WriteString(":")
-			buf.WriteString(d.ValueLit(keyValues[k], optFns...))
+			// a map entry always needs its value, also a zero-valued struct inside a struct field
+			buf.WriteString(d.ValueLit(keyValues[k], append(optFns, SubValue(false))...))
 			buf.WriteString(",")
 			buf.WriteString("\n")
 		}
